@@ -35,8 +35,8 @@ theorem adjustAll_keys (o : EpochOpts W) (ss ss' : List (Species W)) (h : adjust
         cases h
         simp [adjustFitness_key o s s1 h1, ih ss1 h2]
 
-/-- id, age, novel flag and the allocation ids of the members -/
-def ukey (s : Species W) : (Int × Int × Bool) × List Nat := (skey s, s.orgs.map (·.uid))
+/-- id, age, novel flag, and for every member its allocation id and whether it is marked for elimination -/
+def ukey (s : Species W) : (Int × Int × Bool) × List (Nat × Bool) := (skey s, s.orgs.map (fun x => (x.uid, x.toEliminate)))
 
 theorem assignQuotas_keys (ss : List (Species W)) (skim : W) (tot : Int) :
     (assignQuotas ss skim tot).1.map ukey = ss.map ukey := by
@@ -90,10 +90,11 @@ theorem purgeZero_keys (p : Pop W) :
   exact List.Sublist.refl _
 
 omit [Scalar W] in
-theorem setTopOrg_key (s : Species W) (f : Org W → Org W) (hf : ∀ t, (f t).uid = t.uid) : ukey (setTopOrg s f) = ukey s := by
+theorem setTopOrg_key (s : Species W) (f : Org W → Org W) (hf : ∀ t, (f t).uid = t.uid ∧ (f t).toEliminate = t.toEliminate) :
+    ukey (setTopOrg s f) = ukey s := by
   unfold setTopOrg; split
   · rfl
-  · rename_i o os h; simp [ukey, skey, h, hf]
+  · rename_i o os h; simp [ukey, skey, h, (hf o).1, (hf o).2]
 
 theorem deltaCoding_keys (sorted l : List (Species W)) (o : EpochOpts W) (h : deltaCoding sorted o = .ok l) :
     l.map ukey = sorted.map ukey := by
@@ -105,15 +106,15 @@ theorem deltaCoding_keys (sorted l : List (Species W)) (o : EpochOpts W) (h : de
     · cases h
     · cases h
       simp only [List.map_cons, List.map_nil, List.cons.injEq, and_true]
-      exact setTopOrg_key _ _ (by intro t; rfl)
+      exact setTopOrg_key _ _ (by intro t; exact ⟨rfl, rfl⟩)
   · split at h
     · cases h
     · cases h
       simp only [List.map_cons, List.map_map]
       congr 1
-      · exact setTopOrg_key _ _ (by intro t; rfl)
+      · exact setTopOrg_key _ _ (by intro t; exact ⟨rfl, rfl⟩)
       · congr 1
-        · exact setTopOrg_key _ _ (by intro t; rfl)
+        · exact setTopOrg_key _ _ (by intro t; exact ⟨rfl, rfl⟩)
 
 
 omit [Scalar W] in
@@ -152,7 +153,7 @@ theorem giveLoop_keys (o : EpochOpts W) (blocks : List Int) (l l' : List (Specie
           split at hstep
           · simp only [Except.ok.injEq, Prod.mk.injEq] at hstep
             obtain ⟨⟨rfl, _⟩, _⟩ := hstep
-            exact setTopOrg_key _ _ (by intro t; rfl)
+            exact setTopOrg_key _ _ (by intro t; exact ⟨rfl, rfl⟩)
           · split at hstep
             · split at hstep
               · cases hstep
@@ -160,10 +161,10 @@ theorem giveLoop_keys (o : EpochOpts W) (blocks : List Int) (l l' : List (Specie
                 · split at hstep
                   · simp only [Except.ok.injEq, Prod.mk.injEq] at hstep
                     obtain ⟨⟨rfl, _⟩, _⟩ := hstep
-                    exact setTopOrg_key _ _ (by intro t; rfl)
+                    exact setTopOrg_key _ _ (by intro t; exact ⟨rfl, rfl⟩)
                   · simp only [Except.ok.injEq, Prod.mk.injEq] at hstep
                     obtain ⟨⟨rfl, _⟩, _⟩ := hstep
-                    exact setTopOrg_key _ _ (by intro t; rfl)
+                    exact setTopOrg_key _ _ (by intro t; exact ⟨rfl, rfl⟩)
                 · simp only [Except.ok.injEq, Prod.mk.injEq] at hstep
                   obtain ⟨⟨rfl, _⟩, _⟩ := hstep
                   rfl
@@ -200,7 +201,7 @@ theorem giveBabies_keys (sorted l : List (Species W)) (o : EpochOpts W) (rs rs' 
           obtain ⟨rfl, _⟩ := h
           rw [← h2, ← h1]
           simp only [List.map_cons, List.cons.injEq, and_true]
-          exact setTopOrg_key _ _ (by intro t; rfl)
+          exact setTopOrg_key _ _ (by intro t; exact ⟨rfl, rfl⟩)
     · simp only [Except.ok.injEq, Prod.mk.injEq] at h
       obtain ⟨rfl, _⟩ := h
       rw [h1, h2]
@@ -246,8 +247,8 @@ theorem writeBack_keys (species updated : List (Species W)) (hnd : (species.map 
 theorem skeys_of_ukeys (a : List (Species W)) : a.map skey = (a.map ukey).map (·.1) := by
   simp [ukey, Function.comp_def]
 
-theorem uids_of_ukeys (a : List (Species W)) : orgUids a = (a.map ukey).flatMap (·.2) := by
-  simp [ukey, orgUids, List.flatMap_map]
+theorem uids_of_ukeys (a : List (Species W)) : orgUids a = (a.map ukey).flatMap (fun k => k.2.map (·.1)) := by
+  simp [ukey, orgUids, List.flatMap_map, Function.comp_def]
 
 theorem ids_sublist_of_keys {a b : List (Species W)} (h : (a.map skey).Sublist (b.map skey)) :
     (a.map (·.id)).Sublist (b.map (·.id)) := by
@@ -328,13 +329,16 @@ theorem adjustAll_uids (o : EpochOpts W) (ss ss' : List (Species W)) (h : adjust
 /-- the preparation phase (fitness adjustment, quotas, zero-quota purge, sorting, stolen babies / delta coding,
     removal of the organisms marked for elimination) keeps id, age and novel flag of every species it keeps, only
     removes organisms, and removes the same organisms from the population's list as from the species -/
-theorem prepare_spec (o : EpochOpts W) (p p1 : Pop W) (ex : ExecState) (rs rs' : List Nat)
+theorem prepare_spec_full (o : EpochOpts W) (p p1 : Pop W) (ex : ExecState) (rs rs' : List Nat)
     (hnd : (p.species.map (·.id)).Nodup) (h : prepareForReproduction o p rs = .ok ((p1, ex), rs')) :
     p1.lastSpecies = p.lastSpecies ∧ p1.nextUid = p.nextUid ∧
     ∃ (doomed : List Nat) (mid : List (Species W)),
       p1.organisms = p.organisms.filter (fun u => !doomed.contains u) ∧
       (mid.map skey).Sublist (p.species.map skey) ∧ (∀ u ∈ orgUids mid, u ∈ orgUids p.species) ∧
-      p1.species = mid.map (fun s => { s with orgs := s.orgs.filter (fun x => !doomed.contains x.uid) }) := by
+      p1.species = mid.map (fun s => { s with orgs := s.orgs.filter (fun x => !doomed.contains x.uid) }) ∧
+      ∃ (species1 : List (Species W)) (pre : Pop W), adjustAll o p.species = .ok species1 ∧
+        (mid.map ukey).Sublist (species1.map ukey) ∧ pre.species = mid ∧ pre.organisms = p.organisms ∧
+        doomed = (pre.orgList.filter (·.toEliminate)).map (·.uid) := by
   unfold prepareForReproduction at h
   split at h
   · cases h
@@ -361,7 +365,7 @@ theorem prepare_spec (o : EpochOpts W) (p p1 : Pop W) (ex : ExecState) (rs rs' :
               (pz.species.map ukey) := by
             rw [hsorted]
             simp only [List.tail_cons, List.map_cons]
-            rw [setTopOrg_key _ _ (by intro t; rfl)]
+            rw [setTopOrg_key _ _ (by intro t; exact ⟨rfl, rfl⟩)]
             have := (goInsertionSort_perm (fun a b => speciesLess b a) pz.species).map ukey
             unfold sortSpeciesDesc at hsorted
             rw [hsorted] at this
@@ -374,7 +378,10 @@ theorem prepare_spec (o : EpochOpts W) (p p1 : Pop W) (ex : ExecState) (rs rs' :
             exact hz1.map _
           have hndz : (pz.species.map (·.id)).Nodup := (ids_sublist_of_keys hzs).nodup hnd
           have hwb := writeBack_keys pz.species sorted2 hndz (hk2 ▸ hsorted1)
-          refine ⟨hz2, hnz, _, writeBack pz.species sorted2, ?_, ?_, ?_, rfl⟩
+          refine ⟨hz2, hnz, _, writeBack pz.species sorted2, ?_, ?_, ?_, rfl, species1, _, hadj, ?_, rfl, ?_, rfl⟩
+          rotate_left 3
+          · rw [hwb]; exact hz1
+          · exact hz3
           · simp only [purgeOrganisms]; rw [hz3]
           · rw [skeys_of_ukeys, hwb, ← skeys_of_ukeys]; exact hzs
           · intro u hu
@@ -384,6 +391,16 @@ theorem prepare_spec (o : EpochOpts W) (p p1 : Pop W) (ex : ExecState) (rs rs' :
               obtain ⟨k, hk, huk⟩ := List.mem_flatMap.mp hu
               exact List.mem_flatMap.mpr ⟨k, hz1.subset hk, huk⟩
             exact hu1.subset this
+
+theorem prepare_spec (o : EpochOpts W) (p p1 : Pop W) (ex : ExecState) (rs rs' : List Nat)
+    (hnd : (p.species.map (·.id)).Nodup) (h : prepareForReproduction o p rs = .ok ((p1, ex), rs')) :
+    p1.lastSpecies = p.lastSpecies ∧ p1.nextUid = p.nextUid ∧
+    ∃ (doomed : List Nat) (mid : List (Species W)),
+      p1.organisms = p.organisms.filter (fun u => !doomed.contains u) ∧
+      (mid.map skey).Sublist (p.species.map skey) ∧ (∀ u ∈ orgUids mid, u ∈ orgUids p.species) ∧
+      p1.species = mid.map (fun s => { s with orgs := s.orgs.filter (fun x => !doomed.contains x.uid) }) := by
+  obtain ⟨a, b, doomed, mid, c, d, e, f, _⟩ := prepare_spec_full o p p1 ex rs rs' hnd h
+  exact ⟨a, b, doomed, mid, c, d, e, f⟩
 
 /-- **C02 (species over one whole epoch).** For every population whose species ids are unique and not above
     `LastSpecies`, every stream, registry and option setting: if `NextEpoch` returns, species ids are again unique
